@@ -116,6 +116,9 @@ func checkC19(c *Ctx) {
 				// R3: conditions on the receiver's own payload
 				if iff, ok := b.Instrs[len(b.Instrs)-1].(*ssa.If); ok && f.Signature.Recv() != nil && isNode(f.Signature.Recv().Type()) {
 					t := core.Term(iff.Cond)
+					for strings.HasPrefix(t, "!(") && strings.HasSuffix(t, ")") {
+						t = t[2 : len(t)-1] // the atom, whatever branch the code hangs on it
+					}
 					if strings.Contains(t, "(*P0)."+payload) && !strings.Contains(t, "Children") {
 						predTerms[c.fname(f)] = append(predTerms[c.fname(f)], t)
 					}
